@@ -43,13 +43,14 @@ def model_validation(
             raise ModelConstructionError(
                 f'Key {key} {type(key)} not in allow"list" of keys and combinations for process noise based on state_model.control [{render}]'
             )
-    if set(calibration_map.keys()) != state_model.calibration:
+    declared_calibration = set(state_model.calibration)
+    if set(calibration_map.keys()) != declared_calibration:
         map_version = set(calibration_map.keys())
-        missing_calibrations = state_model.calibration - map_version
+        missing_calibrations = declared_calibration - map_version
         missing_calibrations = ", ".join(
             sorted([symbol.name for symbol in missing_calibrations])[:3]
         )
-        extra_mappings = map_version - state_model.calibration
+        extra_mappings = map_version - declared_calibration
         extra_mappings = ", ".join(
             sorted([symbol.name for symbol in extra_mappings])[:3]
         )
